@@ -94,9 +94,9 @@ func vRaceHandlers() *verifHandlers {
 			case "updater.saveDelay":
 				return 30 * time.Millisecond
 			case "abaco.readPeriod":
-				return 4 * time.Millisecond
+				return 10 * time.Millisecond // also used with real UDP, where the sender cannot be throttled: 1 s of slack
 			case "lancero.readPeriod":
-				return 2 * time.Millisecond
+				return 4 * time.Millisecond
 			case "abaco.panicTime":
 				return 60 * time.Second
 			}
@@ -302,7 +302,7 @@ func vRaceSession(k *vCaller, w vRaceWorkload, cycle int, dir string, reconfigur
 		}
 		time.Sleep(5 * time.Millisecond)
 	}
-	k.must("StoreRawDataBlock", 2000, &s)
+	k.must("StoreRawDataBlock", 600, &s) // small enough to complete well before the source is stopped
 	rawfile2 := s
 	if w.nchan >= 3 {
 		gts := GroupTriggerState{Connections: map[int][]int{0: {1}}}
@@ -316,7 +316,7 @@ func vRaceSession(k *vCaller, w vRaceWorkload, cycle int, dir string, reconfigur
 	dummy := false
 	k.must("StopTriggerCoupling", &dummy, &okay)
 	nap()
-	for i := 0; i < 400; i++ {
+	for i := 0; i < 1200; i++ {
 		if _, err := os.Stat(rawfile2); err == nil {
 			k.c.Cov("raw_blocks_completed", 2)
 			break
@@ -476,6 +476,7 @@ func vRunRace(c *vCase) {
 		reconfigure = func() bool {
 			card := vEndlessCard(3, 2, uint64(c.R.Int63()))
 			ls := sc.lancero
+			card.backlog = func() int { return len(ls.buffersChan) }
 			ls.nsamp = 1
 			dev := &LanceroDevice{devnum: 0, nrows: 3, lsync: 2000, clockMHz: 125, card: card}
 			ls.devices = map[int]*LanceroDevice{0: dev}
@@ -492,6 +493,7 @@ func vRunRace(c *vCase) {
 			s := &vAbScript{fpp: 8, bits: 16, nSample: 6, nScript: 0, nprod: 2}
 			s.groups = []vAbGroup{{first: 0, nchan: 3, snBase: 100, producer: 0, lost: map[int]bool{}}, {first: 8, nchan: 2, snBase: 5000, producer: 1, lost: map[int]bool{}}}
 			run := &vAbRun{s: s, nextIdx: []int{6, 6}, delivered: make([][]int, 2), calls: make([]int, 2), starts: make([]int, 2), stops: make([]int, 2)}
+			run.backlog = func() int { return len(sc.abaco.buffersChan) }
 			sc.abaco.producers = []PacketProducer{&vAbProducer{run: run, id: 0}, &vAbProducer{run: run, id: 1}}
 			return true
 		}
